@@ -970,6 +970,20 @@ func runC12(res *hx.Result, rng *hx.Rng, tier string, outdir string) {
 		}
 		res.Switch("stale_closer", hit, what)
 	}
+	// frames pipelined behind the authenticate request (c12auth.go); a race, so the probe runs for a while
+	{
+		d := 2500 * time.Millisecond
+		if tier == "thorough" {
+			d = 20 * time.Second
+		}
+		hit, n, note := c12authRaceProbe(root, d)
+		what := c12authRaceWhat
+		if hit {
+			what += "; here: " + note
+		}
+		res.Switch("auth_state_race", hit, what)
+		res.Distribution["auth-race-probe-connections"] = n
+	}
 	// terminated object still answering (C16's subject; only needed to evaluate the model faithfully)
 	removedAnswers := true
 	if ch, err := c12start(root); err == nil {
